@@ -94,6 +94,9 @@ IDENTITY_CALLS = {
     'std::boxed::Box::as_ref': 0,
     'std::boxed::Box::as_mut': 0,
     'std::iter::IntoIterator::into_iter': 0,
+    # value-preserving on the success side: `x.map_err(f)?` still denotes x's Ok payload
+    'std::ops::Try::branch': 0,
+    'std::result::Result::map_err': 0,
 }
 
 CLOSURE_CALLS = ('std::ops::FnOnce::call_once', 'std::ops::FnMut::call_mut', 'std::ops::Fn::call')
